@@ -41,3 +41,14 @@ Definition chk_conv_claims (c : conv_case) : bool :=
   match case_verdict c with NoClaim => false | _ => true end.
 Definition chk_conv_accepts (c : conv_case) : bool :=
   match case_verdict c with Accept => true | _ => false end.
+
+(* numeric literal values: the harness sends the text, whether int(text) succeeds, and the exact decimal value n/d that
+   was written (Python Fraction(text)); the real visitNumericLiteral value is compared with the same n/d by the oracle *)
+Definition value_is (v : value) (isint : bool) (n : Z) (d : positive) : bool :=
+  match v with
+  | VInt z => isint && (z =? n)%Z && (d =? 1)%positive
+  | VReal a b => negb isint && (a * Zpos d =? n * Zpos b)%Z
+  | _ => false
+  end.
+Definition chk_num (c : list N * bool * Z * positive) : bool :=
+  let '(codes, isint, n, d) := c in value_is (num_value (sb codes)) isint n d.
